@@ -163,6 +163,7 @@ End Keep.
 (* ================= noise steps ================= *)
 Section Noise.
 Variable cap : nat.
+Variable ep : N.
 Variable lam : fev -> N.
 Variable vals : list (N * N).
 Hypothesis Hvals : vals_ok vals.
@@ -172,8 +173,8 @@ Hypothesis HJ : forall a, J a -> id_fresh K a.
 Hypothesis HK : K < 2 ^ 192.
 
 Notation nv := (length vals).
-Notation Sim := (Sim lam vals J K).
-Notation Core := (Core lam vals).
+Notation Sim := (Sim ep lam vals J K).
+Notation Core := (Core ep lam vals).
 Notation cache_inv := (cache_inv vals).
 
 Definition is_build (o : op) : bool := match o with OpB _ => true | _ => false end.
@@ -190,7 +191,7 @@ Definition noise_ok (i : inst) (o : op) : Prop :=
   end.
 
 Lemma stale_mono c c' a : c <= c' -> stale J c a -> stale J c' a.
-Proof. intros L [(ep & lm & c2 & t2 & Bc & S2 & E2)|Ja]; [left | right; exact Ja]. exists ep, lm, c2, t2. split; [lia | auto]. Qed.
+Proof. intros L [(ep0 & lm & c2 & t2 & Bc & S2 & E2)|Ja]; [left | right; exact Ja]. exists ep0, lm, c2, t2. split; [lia | auto]. Qed.
 
 Lemma Sim_update i T Dr B c c' es' : Sim i T Dr B -> l_ctr (i_st i) <= c -> c <= K ->
   cache_inv (stale J c) (set_fcc (set_ctr (i_st i) c) c') T T ->
@@ -236,15 +237,15 @@ Proof.
   destruct (add_some (l_idx (i_st i)) (vev (l_vals (i_st i)) x')) as [s' Ha].
   { intros p Hp. cbn [vev epar x' set_id a_parents] in Hp. destruct (Hpar p Hp) as [e0 [He0 <-]].
     destruct (event_node vals T Dr e0 W He0) as [n0 [Hn0 [En0 _]]].
-    destruct (node_evt lam vals _ _ _ _ _ n0 C Hn0) as [ev Ev]. rewrite <- En0 in Ev.
-    destruct (v_keys_hbla _ _ (co_vinv _ _ _ _ _ _ _ C) _ _ Ev) as [Hh _]. exact Hh. }
+    destruct (node_evt ep lam vals _ _ _ _ _ n0 C Hn0) as [ev Ev]. rewrite <- En0 in Ev.
+    destruct (v_keys_hbla _ _ (co_vinv _ _ _ _ _ _ _ _ C) _ _ Ev) as [Hh _]. exact Hh. }
   rewrite Ha in BE.
   change (a_epoch x') with (a_epoch x) in BE. change (a_creator x') with (a_creator x) in BE.
   rewrite G1, G3 in BE. cbn [orb] in BE.
   destruct (calc_frame_ok cap (i_es i) (set_idx (set_ctr (i_st i) (l_ctr (i_st i) + 1)) s') x' false) as [[spf fr] Hr].
   { intros sp Hsp. change (a_self_parent x') with (a_self_parent x) in Hsp.
     destruct (Hpar sp (self_parent_in_parents x sp Hsp)) as [e0 [He0 <-]].
-    exists (to_aevent lam vals e0). apply (co_es _ _ _ _ _ _ _ C); [exact He0|].
+    exists (to_aevent ep lam vals e0). apply (co_es _ _ _ _ _ _ _ _ C); [exact He0|].
     destruct (event_node vals T Dr e0 W He0) as [n0 [Hn0 [En0 _]]]. exists n0. auto. }
   destruct (calc_frame cap (i_es i) (set_idx (set_ctr (i_st i) (l_ctr (i_st i) + 1)) s') x' false) as [rr st1]. cbn [fst] in Hr. subst rr.
   inversion BE; subst. reflexivity.
@@ -255,7 +256,7 @@ Lemma noise_step i T Dr B o : Sim i T Dr B -> few_forkers vals T -> noise_ok i o
   exists ob i', step cap [] sample i o = (ob, i', false) /\ Sim i' T Dr B /\
     l_ctr (i_st i') <= l_ctr (i_st i) + (if is_build o then 1 else 0).
 Proof.
-  intros HS Hff OK HB. destruct o as [x|x| |ep raw|id|f|a b|]; cbn [noise_ok is_build] in OK, HB |- *.
+  intros HS Hff OK HB. destruct o as [x|x| |ep1 raw|id|f|a b|]; cbn [noise_ok is_build] in OK, HB |- *.
   - (* rejected / skipped Process *)
     destruct OK as [Jx OK]. cbn [step] in OK |- *.
     destruct (guard i x true) as [w|]; [exists (ObsSkip w), i; split; [reflexivity | split; [exact HS | lia]]|].
@@ -265,9 +266,9 @@ Proof.
     destruct (process_reject_cache cap _ _ _ _ _ _ PE) as [-> [c' [-> Kp]]].
     eexists _, _. split; [reflexivity|]. cbn [i_st l_ctr set_fcc]. split; [|lia].
     rewrite <- (set_ctr_same (i_st i)) at 1.
-    apply (Sim_update i T Dr B (l_ctr (i_st i)) c' _ HS); [lia | apply (sm_ctr _ _ _ _ _ _ _ _ HS) | |].
+    apply (Sim_update i T Dr B (l_ctr (i_st i)) c' _ HS); [lia | apply (sm_ctr _ _ _ _ _ _ _ _ _ HS) | |].
     + apply (keeps_cache_inv i T Dr B _ c' J HS); [lia|]. intros a b r H. destruct (Kp a b r H) as [->|Old]; [right; right; exact Jx | left; exact Old].
-    + intros e He. apply es_remove_other. intros E. apply (proj2 (sm_fresh _ _ _ _ _ _ _ _ HS e He)). rewrite E. exact Jx.
+    + intros e He. apply es_remove_other. intros E. apply (proj2 (sm_fresh _ _ _ _ _ _ _ _ _ HS e He)). rewrite E. exact Jx.
   - (* any speculative Build *)
     cbn [step].
     destruct (guard i x false) as [w|] eqn:GD; [exists (ObsSkip w), i; split; [reflexivity | split; [exact HS | lia]]|].
@@ -278,7 +279,7 @@ Proof.
     apply (Sim_update i T Dr B (l_ctr (i_st i) + 1) c' _ HS); [lia | apply HB; reflexivity | | auto].
     apply (keeps_cache_inv i T Dr B _ c' J HS); [lia|]. intros a b r0 H. destruct (Kp a b r0 H) as [Old|Tm]; [left; exact Old | right; left; exact Tm].
   - (* restart *)
-    destruct (restart_step cap lam vals Hvals J K HJ i T Dr B HS Hff) as [i' [E [HS' C0]]].
+    destruct (restart_step cap ep lam vals Hvals J K HJ i T Dr B HS Hff) as [i' [E [HS' C0]]].
     eexists _, i'. split; [exact E|]. split; [exact HS' | lia].
   - destruct OK.
   - (* merged clock probe *)
@@ -295,7 +296,7 @@ Proof.
       destruct (event_node vals T Dr e W He) as [nz [Hnz [Ez _]]]. exists nz. split; [exact Hnz|]. split; [auto|].
       destruct (FR e He) as [F0 J0]. intros [Tm|Jn]; [exact (id_fresh_not_temp K _ _ CT F0 Tm) | exact (J0 Jn)]. }
     destruct (Nd a Ma) as [na [Hna [Ea Sa]]]. destruct (Nd b Mb) as [nb [Hnb [Eb _]]]. subst a b.
-    destruct (fc_cached_sim cap lam vals Hvals (i_st i) (i_es i) T Dr T _ T T na nb C CI (incl_refl _) (incl_refl _) Hna Hnb Sa) as [c' [E CI']].
+    destruct (fc_cached_sim cap ep lam vals Hvals (i_st i) (i_es i) T Dr T _ T T na nb C CI (incl_refl _) (incl_refl _) Hna Hnb Sa) as [c' [E CI']].
     rewrite E. eexists _, _. split; [reflexivity|]. cbn [i_st l_ctr set_fcc]. split; [|lia].
     rewrite <- (set_ctr_same (i_st i)) at 1.
     apply (Sim_update i T Dr B (l_ctr (i_st i)) c' _ HS); [lia | exact CT | rewrite set_ctr_same; exact CI' | auto].
@@ -307,8 +308,9 @@ End Noise.
 (* ================= runs with noise ================= *)
 Record slot := { s_pre : list op; s_ev : fev; s_mid : list op }.
 
-Definition sched_ops (lam : fev -> N) (vals : list (N * N)) (sc : list slot) (tl : list op) : list op :=
-  flat_map (fun s => s_pre s ++ OpB (to_aevent lam vals (s_ev s)) :: s_mid s ++ [OpP (to_aevent lam vals (s_ev s))]) sc ++ tl.
+Definition sched_ops_ep (ep : N) (lam : fev -> N) (vals : list (N * N)) (sc : list slot) (tl : list op) : list op :=
+  flat_map (fun s => s_pre s ++ OpB (to_aevent ep lam vals (s_ev s)) :: s_mid s ++ [OpP (to_aevent ep lam vals (s_ev s))]) sc ++ tl.
+Definition sched_ops := sched_ops_ep 1.
 (* true = the Build / Process of a valid event *)
 Definition sched_mask (sc : list slot) (tl : list op) : list bool :=
   flat_map (fun s => repeat false (length (s_pre s)) ++ true :: repeat false (length (s_mid s)) ++ [true]) sc ++ repeat false (length tl).
@@ -329,6 +331,7 @@ Proof. unfold count_builds. rewrite filter_app, app_length. reflexivity. Qed.
 
 Section NoiseRun.
 Variable cap : nat.
+Variable ep : N.
 Variable lam : fev -> N.
 Variable vals : list (N * N).
 Hypothesis Hvals : vals_ok vals.
@@ -338,8 +341,8 @@ Hypothesis HJ : forall a, J a -> id_fresh K a.
 Hypothesis HK : K < 2 ^ 192.
 
 Notation nv := (length vals).
-Notation Sim := (Sim lam vals J K).
-Notation ae := (to_aevent lam vals).
+Notation Sim := (Sim ep lam vals J K).
+Notation ae := (to_aevent ep lam vals).
 
 (* every operation outside the mask is acceptable noise in the state in which it is executed *)
 Fixpoint ok_from (i : inst) (ops : list op) (mask : list bool) : Prop :=
@@ -360,7 +363,7 @@ Proof.
   - cbn [app length repeat ok_from] in OK. destruct OK as [OK1 OK2].
     assert (HBo : is_build o = true -> l_ctr (i_st i) + 1 <= K).
     { intros Eb. unfold count_builds in HB. cbn [filter] in HB. rewrite Eb in HB. cbn [length] in HB. lia. }
-    destruct (noise_step cap lam vals Hvals J K HJ HK i T Dr B o HS Hff (OK1 eq_refl) HBo) as [ob [i1 [E [HS1 C1]]]].
+    destruct (noise_step cap ep lam vals Hvals J K HJ HK i T Dr B o HS Hff (OK1 eq_refl) HBo) as [ob [i1 [E [HS1 C1]]]].
     rewrite E in OK2. cbn [fst snd] in OK2.
     assert (HB1 : l_ctr (i_st i1) + N.of_nat (count_builds ns) <= K).
     { unfold count_builds in HB |- *. cbn [filter] in HB. destruct (is_build o); cbn [length] in HB; lia. }
@@ -374,13 +377,13 @@ Lemma sched_sim : forall sc i T Dr B tl, Sim i T Dr B ->
   codes_ok (snd (add_events vals T (map s_ev sc))) ->
   (forall e, In e (map s_ev sc) -> id_fresh K (eid (fe e)) /\ ~ J (eid (fe e))) ->
   few_forkers vals (fst (add_events vals T (map s_ev sc))) ->
-  l_ctr (i_st i) + N.of_nat (count_builds (sched_ops lam vals sc tl)) <= K ->
-  ok_from i (sched_ops lam vals sc tl) (sched_mask sc tl) ->
-  exists i' B', render (pick (sched_mask sc tl) (run cap [] sample i (sched_ops lam vals sc tl))) = (snd (add_events vals T (map s_ev sc)), B') /\
+  l_ctr (i_st i) + N.of_nat (count_builds (sched_ops_ep ep lam vals sc tl)) <= K ->
+  ok_from i (sched_ops_ep ep lam vals sc tl) (sched_mask sc tl) ->
+  exists i' B', render (pick (sched_mask sc tl) (run cap [] sample i (sched_ops_ep ep lam vals sc tl))) = (snd (add_events vals T (map s_ev sc)), B') /\
     Sim i' (fst (add_events vals T (map s_ev sc))) (rev (map s_ev sc) ++ Dr) (B ++ B').
 Proof.
   induction sc as [|s sc IH]; intros i T Dr B tl HS Hc Hf Hff HB OK.
-  - cbn [map add_events fst snd rev app]. unfold sched_ops, sched_mask in *. cbn [flat_map app] in *. cbn [map add_events fst] in Hff.
+  - cbn [map add_events fst snd rev app]. unfold sched_ops_ep, sched_mask in *. cbn [flat_map app] in *. cbn [map add_events fst] in Hff.
     pose proof (noise_list T Dr B Hff tl i [] [] HS) as NL. rewrite !app_nil_r in NL.
     destruct (NL OK HB) as [i' [os [ER [L [HS' _]]]]].
     rewrite ER. cbn [run]. rewrite app_nil_r, pick_all_false. exists i', []. rewrite app_nil_r. split; [reflexivity | exact HS'].
@@ -396,9 +399,9 @@ Proof.
     { eapply few_forkers_sub; [|exact Hff]. intros x Hx. apply Inc. right. exact Hx. }
     assert (Hff1 : few_forkers vals (mk_node nv T e :: T)) by (eapply few_forkers_sub; [exact Inc | exact Hff]).
     (* shape of the operation list *)
-    set (rest := sched_ops lam vals sc tl). set (mrest := sched_mask sc tl).
-    assert (Eops : sched_ops lam vals (s :: sc) tl = s_pre s ++ (OpB (ae e) :: s_mid s ++ (OpP (ae e) :: rest))).
-    { unfold sched_ops, rest. cbn [flat_map]. fold e. rewrite <- !app_assoc. cbn [app]. rewrite <- app_assoc. reflexivity. }
+    set (rest := sched_ops_ep ep lam vals sc tl). set (mrest := sched_mask sc tl).
+    assert (Eops : sched_ops_ep ep lam vals (s :: sc) tl = s_pre s ++ (OpB (ae e) :: s_mid s ++ (OpP (ae e) :: rest))).
+    { unfold sched_ops_ep, rest. cbn [flat_map]. fold e. rewrite <- !app_assoc. cbn [app]. rewrite <- app_assoc. reflexivity. }
     assert (Emask : sched_mask (s :: sc) tl = repeat false (length (s_pre s)) ++ (true :: repeat false (length (s_mid s)) ++ (true :: mrest))).
     { unfold sched_mask, mrest. cbn [flat_map]. rewrite <- !app_assoc. cbn [app]. rewrite <- app_assoc. reflexivity. }
     rewrite Eops, Emask in *.
@@ -412,13 +415,13 @@ Proof.
     destruct (noise_list T Dr B HffT (s_pre s) i _ _ HS OK ltac:(lia)) as [i0 [os0 [ER0 [L0 [HS0 [OK0 C0]]]]]].
     (* the Build *)
     cbn [ok_from] in OK0. destruct OK0 as [_ OK0].
-    destruct (build_step cap lam vals Hvals J K HJ i0 T Dr B e HS0 PK CR EW NL FO ltac:(lia) ltac:(lia)) as [i1 [EB [HS1 Ct1]]].
+    destruct (build_step cap ep lam vals Hvals J K HJ i0 T Dr B e HS0 PK CR EW NL FO ltac:(lia) ltac:(lia)) as [i1 [EB [HS1 Ct1]]].
     rewrite EB in OK0. cbn [fst snd] in OK0.
     (* noise between the Build and the Process *)
     destruct (noise_list T Dr B HffT (s_mid s) i1 _ _ HS1 OK0 ltac:(lia)) as [i2 [os2 [ER2 [L2 [HS2 [OK2 C2]]]]]].
     (* the Process *)
     cbn [ok_from] in OK2. destruct OK2 as [_ OK2].
-    destruct (process_step cap lam vals Hvals J K i2 T Dr B e HS2 (proj1 (Hf e (or_introl eq_refl))) (proj2 (Hf e (or_introl eq_refl))) PK NL CR EW FO Hff1)
+    destruct (process_step cap ep lam vals Hvals J K i2 T Dr B e HS2 (proj1 (Hf e (or_introl eq_refl))) (proj2 (Hf e (or_introl eq_refl))) PK NL CR EW FO Hff1)
       as [bl [i3 [EP [HS3 Ct3]]]].
     rewrite EP in OK2. cbn [fst snd] in OK2.
     destruct (IH i3 (mk_node nv T e :: T) (e :: Dr) (B ++ map blk_obs bl) tl HS3) as [i' [B' [ER HS']]].
@@ -441,14 +444,14 @@ Definition noise_side (D : list fev) (J : N -> Prop) (K : N) (ops : list op) : P
   (forall e, In e D -> id_fresh K (eid (fe e)) /\ ~ J (eid (fe e))) /\ (forall a, J a -> id_fresh K a) /\
   N.of_nat (count_builds ops) <= K /\ K < 2 ^ 192.
 
-Lemma final_blocks (cap : nat) lam vals J K (Hvals : vals_ok vals) i T Dr B : Sim lam vals J K i T Dr B -> few_forkers vals T ->
+Lemma final_blocks (cap : nat) ep lam vals J K (Hvals : vals_ok vals) i T Dr B : Sim ep lam vals J K i T Dr B -> few_forkers vals T ->
   B = map (fun b : N * N => (fst b, snd b, ElectionSpec.cheaters_of vals T (snd b))) (r_blocks vals T).
 Proof.
   intros [W Dn _ _ _ SG CH] Hff. rewrite (cheat_map vals T B CH). f_equal.
   unfold r_blocks, blocks_spec. symmetry.
   destruct (seg_bound vals T 0 (map fst B) _ SG) as [EL BD].
   apply (blocks_of_seg cap vals T (map fst B) 0 _ _ SG).
-  - apply (Done_undecided lam vals Hvals T Dr _ _ Hff W _ Dn).
+  - apply (Done_undecided ep lam vals Hvals T Dr _ _ Hff W _ Dn).
   - destruct BD as [->|BD]; [cbn; lia | lia].
 Qed.
 
@@ -458,7 +461,7 @@ Theorem link_noise (cap : nat) lam vals (sc : list slot) (tl : list op) J K :
   ok_from cap J (start 1 vals) ops mask ->
   render (pick mask (run cap [] sample (start 1 vals) ops)) = reference vals D.
 Proof.
-  intros D ops mask Hvals (Hf & HJ & HB & HK) [Hacc Hff] OK.
+  intros D ops mask Hvals (Hf & HJ & HB & HK) [Hacc Hff] OK. unfold sched_ops in ops.
   destruct sc as [|s0 sc0].
   - unfold mask, sched_mask. cbn [flat_map app]. rewrite pick_all_false. reflexivity.
   - assert (Hnv : (0 < length vals)%nat).
@@ -466,11 +469,11 @@ Proof.
       destruct (add_event vals [] (s_ev s0)) as [T1 r] eqn:AE. destruct (add_events vals T1 (map s_ev sc0)) as [T2 rs].
       cbn [snd] in Hacc. assert (Hr : fst r = 0) by (apply Hacc; left; reflexivity). destruct r as [c h]. cbn in Hr. subst c.
       destruct (add_event_accept vals [] (s_ev s0) T1 h AE) as (_ & _ & _ & CR & _). lia. }
-    destruct (sched_sim cap lam vals Hvals J K HJ HK (s0 :: sc0) (start 1 vals) [] [] [] tl
-                (Sim_start lam vals Hvals J K HJ Hnv) Hacc Hf Hff) as [i' [B' [ER HS]]].
+    destruct (sched_sim cap 1 lam vals Hvals J K HJ HK (s0 :: sc0) (start 1 vals) [] [] [] tl
+                (Sim_start 1 lam vals Hvals J K HJ Hnv) Hacc Hf Hff) as [i' [B' [ER HS]]].
     { cbn [start i_st genesis l_ctr]. fold ops. lia. }
     { exact OK. }
     fold D ops mask in ER, HS. rewrite ER. unfold reference. unfold table in Hff.
     destruct (add_events vals [] D) as [T rs] eqn:AEs. cbn [fst snd] in *. f_equal.
-    cbn [app] in HS. apply (final_blocks cap lam vals J K Hvals i' T _ B' HS Hff).
+    cbn [app] in HS. apply (final_blocks cap 1 lam vals J K Hvals i' T _ B' HS Hff).
 Qed.
